@@ -534,6 +534,10 @@ package collection
 //@      implies(rgN[r] < len(r.elements), r.index == rgN[r]) && implies(rgN[r] >= len(r.elements), r.index >= len(r.elements)) &&
 //@      forall(i.(int), implies(1 <= i && i <= min(rgN[r], len(r.elements)), r.elements[wrap(r.index - i, len(r.elements))] == rgSeq[r][rgN[r] - i]))
 
+// Monitor rule: the ring invariant is the invariant of r.lock; index is written only under the exclusive lock.
+//@ lockinv (r *Ring) lock: rgOK(r)
+//@ guarded_by index
+
 //@ lemma rgAt(r *Ring, i int)
 //@   property C16
 //@   hyp rgOK(r) && 1 <= i && i <= min(rgN[r], len(r.elements))
@@ -549,17 +553,19 @@ package collection
 
 //@ func (r *Ring) Add
 //@   property C16
+//@   flag old_at_lock
 //@   requires rgOK(r)
-//@   ghost at entry: lemma modWrap(r.index, len(r.elements))
-//@   ghost at entry: rgSeq[r][rgN[r]] = v
-//@   ghost at entry: rgN[r] = rgN[r] + 1
+//@   ghost at after Lock#0: lemma modWrap(r.index, len(r.elements))
+//@   ghost at after Lock#0: rgSeq[r][rgN[r]] = v
+//@   ghost at after Lock#0: rgN[r] = rgN[r] + 1
 //@   ensures  rgOK(r) && rgN[r] == old(rgN[r]) + 1 && rgSeq[r] == upd(old(rgSeq[r]), old(rgN[r]), v) && len(r.elements) == old(len(r.elements))
 //@   modifies r.index, elems(r.elements), rgN[r], rgSeq[r]
 
 //@ func (r *Ring) Take
 //@   property C16
+//@   flag old_at_lock
 //@   requires rgOK(r)
-//@   ghost at entry: lemma modWrap(r.index, len(r.elements))
+//@   ghost at after RLock#0: lemma modWrap(r.index, len(r.elements))
 //@   ghost at begin loop 0: lemma modWrap(start + i, rlen)
 //@   ghost at begin loop 0: lemma rgAt(r, size - i)
 //@   ensures  len(result) == min(rgN[r], len(r.elements))
@@ -580,6 +586,10 @@ package collection
 //@      0 <= q.count && q.count <= len(q.elements) && q.count == qPut[q] - qGot[q] && qGot[q] >= 0 && q.tail == wrap(q.head + q.count, len(q.elements)) &&
 //@      forall(k.(int), implies(qGot[q] <= k && k < qPut[q], q.elements[wrap(q.head + (k - qGot[q]), len(q.elements))] == qSeq[q][k]))
 
+// Monitor rule: the queue invariant is the invariant of q.lock; the representation is written only under the lock.
+//@ lockinv (q *Queue) lock: qOK(q)
+//@ guarded_by elements, head, tail, count
+
 //@ func NewQueue
 //@   property C16
 //@   ghost at returned#0: qPut[ret] = 0
@@ -590,15 +600,17 @@ package collection
 
 //@ func (q *Queue) Empty
 //@   property C16
+//@   flag old_at_lock
 //@   requires qOK(q)
 //@   ensures  result == (qPut[q] == qGot[q])
 //@   modifies nothing
 
 //@ func (q *Queue) Put
 //@   property C16
+//@   flag old_at_lock
 //@   requires qOK(q)
-//@   ghost at entry: qSeq[q][qPut[q]] = element
-//@   ghost at entry: qPut[q] = qPut[q] + 1
+//@   ghost at after Lock#0: qSeq[q][qPut[q]] = element
+//@   ghost at after Lock#0: qPut[q] = qPut[q] + 1
 //@   ghost at before len#3: lemma modWrap(q.tail + 1, len(q.elements))
 //@   ensures  qOK(q) && qPut[q] == old(qPut[q]) + 1 && qGot[q] == old(qGot[q]) && qSeq[q] == upd(old(qSeq[q]), old(qPut[q]), element)
 //@   modifies q.elements, q.head, q.tail, q.count, elems(q.elements), qPut[q], qSeq[q]
@@ -606,6 +618,7 @@ package collection
 
 //@ func (q *Queue) Take
 //@   property C16
+//@   flag old_at_lock
 //@   results element, ok
 //@   requires qOK(q)
 //@   ghost at before len#0: lemma modWrap(q.head + 1, len(q.elements))
